@@ -177,9 +177,9 @@ theorem strings_stable (lvl : Int) (fieldStart : Nat) (s : HS) (hs : HSP.Inv s) 
   Missing for the full statement (carried by the correspondence run only — bounded-exhaustive
   white-box differential + the daemon engine with rendered requests and the semantic oracle),
   all at lenient levels: request line at levels < 0 with whitespace inside the URI or a bare
-  CR (kept / replaced by a space); field lines with a bare CR or NUL inside (replaced by a
-  space / kept), with whitespace inside or an empty name, without colon, or starting with
-  whitespace (levels ≤ −1 / −2); the lenient cookie renderings (`okLax`). -/
+  CR (kept / replaced by a space); field lines with whitespace / NUL / CR inside or an empty
+  name, without colon, or starting with whitespace (levels ≤ −1 / −2: kept, skipped or
+  discarded — not renderings of a well-formed field); the lenient cookie renderings (`okLax`). -/
 
 /-- a request-line token character: not CR, LF, SP, HT, VT, FF, NUL -/
 abbrev TokenChar := RLP.rplain
@@ -245,20 +245,23 @@ theorem fields_roundtrip_partial (lvl : Int) (fieldStart : Nat) (fields : List H
       removed from the name;
     * the value part as a list of tokens `HSP.VTok`: value bytes (anything but CR LF SP HT NUL),
       whitespace bytes anywhere — after the colon, inside, before the line end —, and obs-folds
-      (a line end followed by SP / HT) anywhere — levels ≤ 0 (`allowFolded`);
+      (a line end followed by SP / HT) anywhere — levels ≤ 0 (`allowFolded`); a NUL (levels ≤ −1,
+      the code overwrites it with a space: `VTok.nul`) and a bare CR not followed by LF (levels
+      −1, −2: overwritten with a space, `VTok.crSp`; level −3: kept as a value byte, `VTok.crKeep`);
     * the line end: CR LF, or a bare LF at levels ≤ 0 (`HSP.FEol`); likewise for the empty line
       `endEol` that ends the section.
     `HSP.FieldR.ok` is the (decidable) side condition.  The value the application must see is
     `HSP.FieldR.semValue`: in the token bytes **every byte of the line end of an obs-fold is
     replaced by a space** (CR LF → two spaces, bare LF → one; the whitespace that starts the
-    continuation line is kept), then whitespace is trimmed on both sides.  Then header parsing
+    continuation line is kept), a NUL and a replaced bare CR are a space, then whitespace is
+    trimmed on both sides.  Then header parsing
     finishes, the element list grows by exactly one element per field — in order, with
     multiplicity —, name and value read back from the final buffer as `name` / `semValue`;
     all strings lie below `read_buffer`; `header_size` counts exactly the bytes of the head.
-    Missing for the full statement (correspondence only), all at lenient levels: a bare CR
-    inside a value (a space at −1, −2; kept at −3) and a NUL inside a line (a space at
-    levels ≤ −1); lines starting with whitespace (discarded, ≤ −1); whitespace inside or an
-    empty field name, lines without colon (skipped) at levels ≤ −2. -/
+    Missing for the full statement (correspondence only), all at lenient levels and none of
+    them a rendering of a well-formed field: NUL / bare CR / obs-fold inside the field *name*;
+    lines starting with whitespace (discarded, ≤ −1); whitespace inside or an empty field
+    name, lines without colon (skipped) at levels ≤ −2. -/
 theorem fields_roundtrip_nc_partial (lvl : Int) (fieldStart : Nat) (fields : List HSP.FieldR) (endEol : List UInt8) (s : HS)
     (chunks : List Bytes) (hs : HSP.Inv s) (hs2 : HSP.Inv2 s) (hfresh : HSP.Fresh s)
     (hok : ∀ f ∈ fields, f.ok (FLFlags.ofLevel lvl)) (hend : HSP.FEol (FLFlags.ofLevel lvl) endEol)
@@ -750,5 +753,11 @@ example :
     before the colon is accepted at level −3 only -/
 example : HSP.exFieldR.ok (FLFlags.ofLevel 0) ∧ ¬ HSP.exFieldR.ok (FLFlags.ofLevel 1) ∧
     HSP.exFieldR.semValue = [118, 97, 32, 32, 32, 108] := by decide
+
+/-- NUL and bare CR inside a value: "A:b\0c\rd\r\n" is accepted at level −1 (both become spaces: the application sees
+    "b c d") and, with the CR kept, at level −3 ("b c\rd"); refused at level 0 -/
+example : HSP.exFieldCr.ok (FLFlags.ofLevel (-1)) ∧ ¬ HSP.exFieldCr.ok (FLFlags.ofLevel 0) ∧
+    HSP.exFieldCr.semValue = [98, 32, 99, 32, 100] ∧ HSP.exFieldCrKeep.ok (FLFlags.ofLevel (-3)) ∧
+    HSP.exFieldCrKeep.semValue = [98, 32, 99, 13, 100] := by decide
 
 end Mhd.C02
